@@ -44,10 +44,38 @@ func isLoopHeader(b *ssa.BasicBlock) bool {
 	return b.Comment == "rangeindex.loop" || b.Comment == "rangeiter.loop" || b.Comment == "for.loop"
 }
 
-// enclosingLoopHeader: nearest dominating loop header whose loop contains b (b can reach it again).
+// inLoop: b belongs to the natural loop of header h (h dominates b and b reaches h through
+// blocks dominated by h only).
+func inLoop(b, h *ssa.BasicBlock) bool {
+	if !h.Dominates(b) {
+		return false
+	}
+	if b == h {
+		return true
+	}
+	seen := map[*ssa.BasicBlock]bool{b: true}
+	q := []*ssa.BasicBlock{b}
+	for len(q) > 0 {
+		x := q[0]
+		q = q[1:]
+		for _, s := range x.Succs {
+			if s == h {
+				return true
+			}
+			if seen[s] || !h.Dominates(s) {
+				continue
+			}
+			seen[s] = true
+			q = append(q, s)
+		}
+	}
+	return false
+}
+
+// enclosingLoopHeader: innermost loop header whose natural loop contains b.
 func enclosingLoopHeader(b *ssa.BasicBlock) *ssa.BasicBlock {
 	for x := b; x != nil; x = x.Idom() {
-		if isLoopHeader(x) && reaches(b, x) {
+		if isLoopHeader(x) && inLoop(b, x) {
 			return x
 		}
 	}
@@ -57,7 +85,7 @@ func enclosingLoopHeader(b *ssa.BasicBlock) *ssa.BasicBlock {
 func outermostLoopHeader(b *ssa.BasicBlock) *ssa.BasicBlock {
 	var out *ssa.BasicBlock
 	for x := b; x != nil; x = x.Idom() {
-		if isLoopHeader(x) && (x == b || reaches(b, x)) {
+		if isLoopHeader(x) && inLoop(b, x) {
 			out = x
 		}
 	}
